@@ -220,7 +220,7 @@ package container
 // What a creation (creating callback, early-reference callback, and every registry operation that may run one) is
 // allowed to touch besides the registry's own caches: injection-point candidate lists and tag values, dependents,
 // memory behind settable fields, lifecycle / narrowing ghost state. A-CALLBACK: user callbacks stay inside this frame.
-//@ frame CreationFrame() = ShortCircuit, Wrapped, anyfield(component_definition.Property, Injects), anyfield(component_definition.Property, TagVal), anyfield(component_definition.Meta, Dependent), anyfield(sync2.Map[string, struct{}], Dom), anyfield(sync2.Map[string, struct{}], Val), RMem, RTop, FilterSrc, FilterPos, St, BeforeLen, BeforeAt, AfterLen, AfterAt, ApsCalls, InitCalls, CurName, Failed
+//@ frame CreationFrame() = ShortCircuit, Wrapped, anyfield(component_definition.Property, Injects), anyfield(component_definition.Property, TagVal), anyfield(component_definition.Meta, Dependent), anyfield(sync2.Map[string, struct{}], Dom), anyfield(sync2.Map[string, struct{}], Val), RMem, RTop, FilterSrc, FilterPos, MetasPos, PosSnap, allmaps(map[string]any), St, BeforeLen, BeforeAt, AfterLen, AfterAt, ApsCalls, InitCalls, CurName, Failed
 //@ frame RegFrame(r) = r.L1Dom, r.L1, r.L2Dom, r.L2, r.L3Dom, r.L3, r.IC, r.EarlyRuns, r.Creates, r.HasHole, r.Hole
 
 // ---- instantiation-aware processors (C05, C09, C18): all three run before the component's initialization ---------
@@ -336,3 +336,47 @@ package container
 //@ property C06
 //@ assigns nothing
 //@ ensures [any-of] result != nil && forall(m, *component_definition.Meta, call(result, m) == exists(i, int, 0 <= i && i < len(opts) && call(opts[i], m))) && forall(m, *component_definition.Meta, callpre(result, m) == (MetaOK(m) && forall(i, int, implies(0 <= i && i < len(opts), opts[i] != nil && callpre(opts[i], m)))))
+
+// ---- wiring calls made by App.initiate (C09, C13): no start-up event happens in them ----------------------------------
+//@ ghost field (Factory) WiredRegistry SingletonRegistry
+//@ ghost field (Factory) WiredConfigure configure.Configure
+//@ method (Factory).SetRegistry
+//@ property C09
+//@ assigns self.WiredRegistry
+//@ ensures [registry-wired] self.WiredRegistry == r
+//@ method (Factory).SetConfigure
+//@ property C09
+//@ assigns self.WiredConfigure
+//@ ensures [configure-wired] self.WiredConfigure == c
+// Registering a singleton records it (A-CALLBACK for foreign registries); the built-in one is proved in container/support.
+//@ ghost field (SingletonRegistry) Registered map[string]any
+//@ method (SingletonRegistry).RegisterSingleton
+//@ property C09
+//@ assigns self.Registered
+
+
+// ---- definition scanning (C09, C11, C20): one scan per (definition-registry post-processor, registered component) ----
+//   ScanRegion[name]  region: everything a scan of component `name` may write (its definition and what hangs off it);
+//                     A-CALLBACK: a scanner called for `name` stays inside ScanRegion[name] and the (synchronised)
+//                     definition registry. Scans of different names therefore never conflict; that the container
+//                     starts at most one scan per name at a time is an obligation of the forking code.
+//   ScanFailed[tid]   the scan run by thread tid reported an error;  ScanRecorded[tid]: that error was put on the list
+//   ScanBase          the first thread id of the current round
+//@ region var ScanRegion map[string]int
+//@ ghost var ScanFailed map[int]bool
+//@ ghost var ScanRecorded map[int]bool
+//@ ghost var ScanBase int
+
+//@ method (DefinitionRegistryPostProcessor).PostProcessDefinitionRegistry
+//@ property C09 C11 C20
+//@ requires [registry-given] registry != nil
+//@ assigns ScanRegion[componentName]
+
+//@ method (Factory).GetRegisteredComponents
+//@ assigns nothing
+//@ method (Factory).GetDefinitionRegistryPostProcessors
+//@ assigns nothing
+//@ ensures [processors-non-nil] forall(i, int, implies(0 <= i && i < len(result), result[i] != nil), result[i])
+//@ method (Factory).GetDefinitionRegistry
+//@ assigns nothing
+//@ ensures [registry-present] result != nil
